@@ -1,7 +1,7 @@
 SPECIFICATION Spec
 CONSTANTS NF = 3
-          SharedTable = TRUE
-          LeakOnFault = FALSE
+          SharedTable = FALSE
+          LeakOnFault = TRUE
           KeepCmInputs = FALSE
 INVARIANT Isolation
 INVARIANT SkipBad
